@@ -1,0 +1,7 @@
+//go:build !verif
+// +build !verif
+
+package mysql
+
+// no-op twin of the verification fault hook (see verif_fault.go)
+func verifDeleteGroupFault() error { return nil }
